@@ -52,6 +52,8 @@ def _case(draw):
         sel = list(range(D))
     else:
         sel = [draw(st.integers(0, D - 1))]
+    if form == 'list' and draw(st.sampled_from([True, False, False, False])):
+        sel = sel + [draw(st.sampled_from(sel))]           # a channel may be asked for twice: two (equal) answers
     spell = [draw(st.sampled_from(['name', 'pos', 'neg'])) for _ in sel]
     if form == 'list' and D >= 2 and draw(st.sampled_from([True, False, False])):
         # a run of neighbouring columns in one spelling: [1, 2, 3], [-2, -1], or running over the end, [-1, 0]
